@@ -219,6 +219,11 @@ func genC12(x *Ctx) *c12Scen {
 			if tp.Chance(120) {
 				p.Path = []string{"/static/f", "/h"}[tp.G(2)]
 			}
+			if tp.Chance(60) && len(p.Path) > 1 {
+				// a path that is not in canonical form (doubled slash, dot segment): legal on the wire; the
+				// ServeMux redirects it, the routers see it as it is
+				p.Path = []string{"/" + p.Path, "/." + p.Path, p.Path + "/../" + strings.TrimPrefix(p.Path, "/")}[tp.G(3)]
+			}
 			p.Boom = tp.Chance(70)
 			ps = append(ps, p)
 		})
